@@ -19,11 +19,11 @@ Out(c) == [s |-> [f \in SFields |-> SetSeq(c.s[f])],
            filespecies |-> FileSpecies(c), filespecies2 |-> FileSpeciesOf(c, 2),
            unset |-> SetToSortSeq(c.unset, LAMBDA a, b : a = "t_f" \/ (a = "t_i" /\ b = "t_s")),
            dflt |-> c.dflt, scal |-> [f \in Opt \cup OptD |-> [t \in Trajs |-> HeldBy(c, f, t)[2]]],
-           sel |-> c.sel, layout |-> c.layout, arr |-> c.arr]
+           sel |-> c.sel, layout |-> c.layout, arr |-> c.arr, fits |-> Fits(c)]
 EmitRead == phase = "read" => PrintT("@@" \o ToJson(Out(case)))
 
 \* random walk: every step draws a fresh case
-RandCase(k) == [s |-> [f \in SFields |-> RandomElement(SUBSET U)], sel |-> RandomElement(Selectors \ {"shift"}),
+RandCase(k) == [s |-> [f \in SFields |-> RandomElement(SUBSET U)], sel |-> RandomElement(Selectors \ {"shift", "extra"}),
              unset |-> RandomElement(SUBSET Opt), layout |-> RandomElement(Layouts), dflt |-> RandomElement(AllDflt), arr |-> RandomElement(ArrForms)]
 SInit == case = RandCase(0) /\ phase = "read" /\ file = <<>> /\ back = <<>> /\ err = "none" /\ n = 0 /\ sfile = <<>> /\ sback = <<>>
 SNext == n < D /\ n' = n + 1 /\ case' = RandCase(n) /\ UNCHANGED <<phase, file, back, err, sfile, sback>>
